@@ -17,11 +17,11 @@ CLAIM = dict(
               "re-association bound (exact on integer-valued data) for reductions and matmul, NumPy as tie-breaker",
     text="Executes unary (12 ops), binary (4 ops: same shape, all 2-d broadcast patterns, rank-mismatched broadcast), outer (3 ops), "
          "add/multiply reduce (axis None / every axis / negative axis, keepdims on/off, dtype= and initial= given) and matmul through "
-         "array::fn(args) and array::fn(args, context) for float and double, for every element count 1..4*lanes+1, row- and column-major "
+         "array::fn(args) and array::fn(args, context) for float and double (plus int32 add/subtract/multiply, outer, reduce), for every element count 1..4*lanes+1, row- and column-major "
          "operands, random non-zero data (seeded) plus integer-valued data; quick: x86_AVX + vector_128, thorough: x86_SSE, x86_AVX, "
          "vector_128/256/512, simde_AVX512. Held-on-observed, not a proof.",
     note="Trusted: g++ ASan/UBSan instrumentation of intrinsics and vector-extension code, NumPy/longdouble reference, %a round trip. "
-         "Not covered: integer element types, compile-time-shaped operands, NaN/Inf/zero/denormal inputs, combinations that do not compile "
+         "Not covered: integer element types other than int32, compile-time-shaped operands, NaN/Inf/zero/denormal inputs, combinations that do not compile "
          "(simde_AVX512 x {hardshrink,hardswish,softshrink}, simde_AVX512 x double x matmul; reciprocal has no SIMD implementation).",
     ref="DESIGN.md 4/C12")
 
@@ -34,7 +34,7 @@ def _groups():
 
 def _targets(ctxs, groups=None):
     return [B.Target(os.path.join(B.HARNESS, "c12_%s.cpp" % g), "simd", ["-DC12_CTX=%d" % c], name="c12_%s_%s" % (g, G.CONTEXTS[c][0]))
-            for c in ctxs for g in (groups or G.GROUPS)]
+            for c in ctxs for g in (groups or G.GROUPS) if G.group_runs(c, g)]
 
 
 def _quick_targets():
@@ -43,8 +43,8 @@ def _quick_targets():
 
 TARGETS_QUICK = [_quick_targets]
 
-EPS = {4: float(np.finfo(np.float32).eps), 8: float(np.finfo(np.float64).eps)}
-TINY = {4: float(np.finfo(np.float32).tiny), 8: float(np.finfo(np.float64).tiny)}
+EPS = {4: float(np.finfo(np.float32).eps), 8: float(np.finfo(np.float64).eps), 32: 0.0}
+TINY = {4: float(np.finfo(np.float32).tiny), 8: float(np.finfo(np.float64).tiny), 32: 0.0}
 
 
 # ---------------------------------------------------------------------------------------------
@@ -83,6 +83,8 @@ class Rec:
 
 
 def fval(tok):
+    if "x" not in tok and "n" not in tok:
+        return float(int(tok))
     if "nan" in tok:
         return float("nan")
     if "inf" in tok:
@@ -235,6 +237,13 @@ def reference(c):
         b = np.array(m["b"], dtype=T).reshape(m["rs"])
         r = NP_BIN[c.op].outer(a, b)
         return list(r.shape), r.astype(np.float64).ravel(), None
+    if c.form == "reduce" and dt == 32:
+        a = np.array(m["a"], dtype=np.int64).reshape(m["shape"])
+        r = np.asarray((np.add if c.op == 0 else np.multiply).reduce(a, axis=m["axis"], keepdims=bool(m["keepdims"])))
+        if np.abs(r).max() >= 2 ** 31:
+            raise ValueError("workload overflows int32")
+        shape = None if (m["axis"] is None and not m["keepdims"]) else list(r.shape)
+        return shape, r.astype(np.float64).ravel(), np.zeros(r.size)
     if c.form == "reduce":
         a = np.array(m["a"], dtype=np.longdouble).reshape(m["shape"])
         axis = m["axis"]
@@ -327,6 +336,8 @@ def check_case(ctx, F, c, toks, stats):
             good = ulp_close(scv[i], r, c.dt, 4)
         else:
             good = abs(scv[i] - r) <= 8 * EPS[c.dt] * max(abs(r), TINY[c.dt]) + float(bound[i])
+        if not good and math.isinf(scv[i]) and c.dt in (4, 8) and abs(r) >= 0.99 * float(np.finfo(G.NPT[c.dt]).max):
+            good = True     # overflow of the element type, the reference is computed in longdouble
         if not good:
             F.add(c, "numpy", "%s: element %d scalar=SIMD=%.9g but NumPy=%.9g" % (short(c), i, scv[i], r), det)
             return
@@ -386,6 +397,8 @@ def run(ctx):
     for cid in ctxs:
         cname = G.CONTEXTS[cid][0]
         for g in groups:
+            if not G.group_runs(cid, g):
+                continue
             cases = []
             t0_ = time.time()
             for gen in G.GEN[g]:
